@@ -184,7 +184,11 @@ func (s *rangeProofStructure) commitmentsFromProof(g zkproof.Group, list []*big.
 	for i := range rangeProofIters {
 		// Build resultLookup
 		resultLookup := rangeProofResultLookup{map[string]*big.Int{}}
-		for name, rlist := range proof.Results {
+		// Only the results named by the structure are used (and were validated by
+		// verifyProofStructure); a proof may carry additional, unchecked entries.
+		for _, curRhs := range s.Rhs {
+			name := curRhs.Secret
+			rlist := proof.Results[name]
 			var res *big.Int
 			if name == s.rangeSecret {
 				res = new(big.Int).Sub(rlist[i], resultOffset)
